@@ -39,21 +39,25 @@ type c14qsrv struct {
 	accepts int
 	vq      int
 	fault   string
+	delay   time.Duration
 }
 
-func c14newQsrv(fault string) (*c14qsrv, error) {
+func c14newQsrv(fault string) (*c14qsrv, error) { return c14newQsrvOpt(fault, 0, 0) }
+
+// maxStreams > 0: the server grants only that many concurrent streams; delay: it answers that late
+func c14newQsrvOpt(fault string, maxStreams int64, delay time.Duration) (*c14qsrv, error) {
 	tlsCfg := &tls.Config{Certificates: []tls.Certificate{c14tlsCert()}, NextProtos: []string{"doq"}}
 	var ln *quic.Listener
 	var err error
 	for i := 0; i < 200; i++ {
-		if ln, err = quic.ListenAddr(fmt.Sprintf("127.0.0.1:%d", c14nextPort()), tlsCfg, &quic.Config{MaxIdleTimeout: 30 * time.Second}); err == nil {
+		if ln, err = quic.ListenAddr(fmt.Sprintf("127.0.0.1:%d", c14nextPort()), tlsCfg, &quic.Config{MaxIdleTimeout: 30 * time.Second, MaxIncomingStreams: maxStreams}); err == nil {
 			break
 		}
 	}
 	if err != nil {
 		return nil, err
 	}
-	s := &c14qsrv{ln: ln, fault: fault}
+	s := &c14qsrv{ln: ln, fault: fault, delay: delay}
 	go func() {
 		for {
 			c, err := ln.Accept(context.Background())
@@ -103,6 +107,9 @@ func (s *c14qsrv) serveStream(c quic.Connection, st quic.Stream) {
 		}
 		s.vi++
 		s.mu.Unlock()
+	}
+	if s.delay > 0 {
+		time.Sleep(s.delay)
 	}
 	switch beh {
 	case "ok":
@@ -222,7 +229,7 @@ func c14h3Once(m map[string]string) c14outcome {
 			case "ok":
 				w.Header().Set("Content-Type", "application/dns-message")
 				w.Write(c14reply(q))
-			case "gar":
+			case "gar", "resp":
 				w.Write(c14garbage(0))
 			case "e500":
 				w.WriteHeader(500)
@@ -281,6 +288,13 @@ func (c *c14dyingConn) OpenStream() (quic.Stream, error) {
 		return nil, &quic.ApplicationError{Remote: true, ErrorCode: 0}
 	}
 	return c.Connection.OpenStream()
+}
+
+func (c *c14dyingConn) OpenStreamSync(ctx context.Context) (quic.Stream, error) {
+	if c.okStreams.Add(-1) < 0 {
+		return nil, &quic.ApplicationError{Remote: true, ErrorCode: 0}
+	}
+	return c.Connection.OpenStreamSync(ctx)
 }
 
 func c14dyingOnce(m map[string]string) c14outcome {
@@ -356,7 +370,190 @@ func c14dyingOnce(m map[string]string) c14outcome {
 	return out
 }
 
+// ---- several exchanges at once (used by the credit and the busy-close scenarios): all must succeed;
+// the reported time is that of the slowest
+
+func c14many(up c14exchanger, n, dl int) (allOk bool, slowest time.Duration) {
+	var wg sync.WaitGroup
+	var mu sync.Mutex
+	allOk = true
+	for i := 0; i < n; i++ {
+		wg.Add(1)
+		go func(i int) {
+			defer wg.Done()
+			ok, el := c14timed(up, dl, c14query("victim", i))
+			mu.Lock()
+			if !ok {
+				allOk = false
+			}
+			if el > slowest {
+				slowest = el
+			}
+			mu.Unlock()
+		}(i)
+	}
+	wg.Wait()
+	return
+}
+
+// ---- DoQ, stream credit (43a2a92): the server grants `streams` concurrent streams and answers after
+// `delay` ms; one exchange first, then `n` > streams exchanges at once on the pooled connection. They
+// wait for credit (OpenStreamSync) and all succeed well within their deadline.
+//   case : tr=quic fault=credit streams=<s> n=<n> delay=<ms> loop=quic script=pok obs=- dl=<ms>
+
+func c14creditOnce(m map[string]string) c14outcome {
+	out := c14outcome{woke: true}
+	srv, err := c14newQsrvOpt("", int64(atoi(m["streams"])), time.Duration(atoi(m["delay"]))*time.Millisecond)
+	if err != nil {
+		out.setupFailed = "listen"
+		return out
+	}
+	defer srv.close()
+	up, err := upstream.NewUpstream("quic://"+srv.ln.Addr().String(), upstream.Opt{TLSConfig: c14clientTLS()})
+	if err != nil {
+		out.setupFailed = "newupstream"
+		return out
+	}
+	defer up.Close()
+	if !c14setupExchange(up, c14query("plain", 0)) {
+		out.setupFailed = "first-exchange"
+		return out
+	}
+	out.ok, out.el = c14many(up, atoi(m["n"]), atoi(m["dl"]))
+	return out
+}
+
+// ---- DoH over h2 / h3, stale pooled connection (941027f): one exchange first (the connection goes to
+// the http library's pool), then
+//   fault=idleclose: the server closes the idle connection; `gap` ms later the victim is sent;
+//   fault=busyclose: k victims are sent at once on the reused connection; when the k-th request has
+//     arrived the server closes the connection under them (and keeps serving new ones).
+// The server is healthy all the time: every victim must succeed (a retry on a new connection).
+//   case : tr=<https|h3> fault=<idleclose|busyclose> k=<n> gap=<ms> loop=doh script=<pfin|pkill>,fok obs=- dl=<ms>
+
+type c14h3Listener struct {
+	http3.QUICEarlyListener
+	mu    sync.Mutex
+	conns []quic.EarlyConnection
+}
+
+func (l *c14h3Listener) Accept(ctx context.Context) (quic.EarlyConnection, error) {
+	c, err := l.QUICEarlyListener.Accept(ctx)
+	if err == nil {
+		l.mu.Lock()
+		l.conns = append(l.conns, c)
+		l.mu.Unlock()
+	}
+	return c, err
+}
+
+func (l *c14h3Listener) closeConns() {
+	l.mu.Lock()
+	cs := l.conns
+	l.conns = nil
+	l.mu.Unlock()
+	for _, c := range cs {
+		c.CloseWithError(0x100, "") // H3_NO_ERROR: what a graceful restart sends
+	}
+}
+
+func c14dohStaleOnce(m map[string]string) c14outcome {
+	tr, fault := m["tr"], m["fault"]
+	k, dl := atoi(m["k"]), atoi(m["dl"])
+	if k < 1 {
+		k = 1
+	}
+	out := c14outcome{woke: true}
+	var mu sync.Mutex
+	hold := false
+	arrived := 0
+	var closeConns func()
+	handler := http.HandlerFunc(func(w http.ResponseWriter, r *http.Request) {
+		b, err := base64.RawURLEncoding.DecodeString(r.URL.Query().Get("dns"))
+		q := new(dns.Msg)
+		if err != nil || q.Unpack(b) != nil {
+			w.WriteHeader(400)
+			return
+		}
+		role, _ := c14role(q)
+		mu.Lock()
+		held := false
+		if role == "victim" && hold {
+			held = true
+			arrived++
+			if arrived == k {
+				hold = false
+				go closeConns()
+			}
+		}
+		mu.Unlock()
+		if held {
+			select { // the connection is about to be closed under this request
+			case <-r.Context().Done():
+			case <-time.After(3 * time.Second):
+			}
+			return
+		}
+		w.Header().Set("Content-Type", "application/dns-message")
+		w.Write(c14reply(q))
+	})
+	var addr string
+	var shutdown func()
+	if tr == "h3" {
+		pc := c14listenUDP()
+		addr = pc.LocalAddr().String()
+		ql, err := quic.ListenEarly(pc, http3.ConfigureTLSConfig(&tls.Config{Certificates: []tls.Certificate{c14tlsCert()}}), &quic.Config{MaxIdleTimeout: 30 * time.Second})
+		if err != nil {
+			pc.Close()
+			out.setupFailed = "listen"
+			return out
+		}
+		ln := &c14h3Listener{QUICEarlyListener: ql}
+		hs := &http3.Server{Handler: handler}
+		go hs.ServeListener(ln)
+		closeConns = ln.closeConns
+		shutdown = func() { hs.Close(); ql.Close(); pc.Close() }
+	} else {
+		ln := &c14rawListener{Listener: c14listenTCP(nil)}
+		addr = ln.Addr().String()
+		hs := &http.Server{Handler: handler, TLSConfig: &tls.Config{Certificates: []tls.Certificate{c14tlsCert()}}}
+		go hs.ServeTLS(ln, "", "")
+		closeConns = ln.closeConns
+		shutdown = func() { hs.Close(); ln.closeConns() }
+	}
+	up, err := upstream.NewUpstream(tr+"://"+addr+"/dns-query", upstream.Opt{TLSConfig: c14clientTLS()})
+	if err != nil {
+		shutdown()
+		out.setupFailed = "newupstream"
+		return out
+	}
+	defer func() {
+		up.Close()
+		shutdown()
+	}()
+	if !c14setupExchange(up, c14query("plain", 0)) {
+		out.setupFailed = "first-exchange"
+		return out
+	}
+	if fault == "idleclose" {
+		closeConns()
+		time.Sleep(time.Duration(atoi(m["gap"])) * time.Millisecond)
+	} else {
+		mu.Lock()
+		hold = true
+		mu.Unlock()
+	}
+	out.ok, out.el = c14many(up, k, dl)
+	return out
+}
+
 func c14quicOnce(m map[string]string) c14outcome {
+	if m["fault"] == "credit" {
+		return c14creditOnce(m)
+	}
+	if m["tr"] == "h3" && (m["fault"] == "idleclose" || m["fault"] == "busyclose") {
+		return c14dohStaleOnce(m)
+	}
 	if m["fault"] == "dyingconn" {
 		return c14dyingOnce(m)
 	}
@@ -413,10 +610,28 @@ func c14quicCases(r *rand.Rand, thorough bool) []c14case {
 		}
 		add("quic", "pooled", rep("pgar", 5, "psil"), "ad")
 	}
+	// stream credit: more concurrent exchanges than the server grants streams
+	l = append(l, c14case{fmt.Sprintf("tr=quic fault=credit streams=2 n=%d delay=60 loop=quic script=pok obs=- dl=2400", 5+r.Intn(4)), "quic/credit"})
+	// DoH over h2 / h3: a stale pooled connection and a healthy server
+	l = append(l, c14case{"tr=h3 fault=idleclose k=1 gap=100 loop=doh script=pkill,fok obs=- dl=2400", "h3/idleclose"})
+	l = append(l, c14case{fmt.Sprintf("tr=https fault=busyclose k=%d gap=0 loop=doh script=pfin,fok obs=- dl=2400", 2+r.Intn(5)), "https/busyclose"})
+	l = append(l, c14case{fmt.Sprintf("tr=h3 fault=busyclose k=%d gap=0 loop=doh script=pkill,fok obs=- dl=2400", 2+r.Intn(5)), "h3/busyclose"})
+	l = append(l, c14case{"tr=https fault=idleclose k=1 gap=0 loop=doh script=pfin,fok obs=- dl=2400", "https/idleclose-race"})
+	if thorough {
+		for _, st := range []int{1, 2, 3} {
+			l = append(l, c14case{fmt.Sprintf("tr=quic fault=credit streams=%d n=%d delay=40 loop=quic script=pok obs=- dl=2400", st, st*3+r.Intn(4)), "quic/credit"})
+		}
+		for i := 0; i < 6; i++ {
+			tr := []string{"https", "h3"}[i%2]
+			tok := []string{"pfin", "pkill"}[i%2]
+			l = append(l, c14case{fmt.Sprintf("tr=%s fault=busyclose k=%d gap=0 loop=doh script=%s,fok obs=- dl=2400", tr, 1+r.Intn(8), tok), tr + "/busyclose"})
+			l = append(l, c14case{fmt.Sprintf("tr=%s fault=idleclose k=%d gap=%d loop=doh script=%s,fok obs=- dl=2400", tr, 1+r.Intn(3), []int{0, 5, 60, 150}[r.Intn(4)], tok), tr + "/idleclose"})
+		}
+	}
 	// DoH3
 	add("h3", "app", "fok", "-")
-	add("h3", "app", "fgar", "-")
-	add("h3", "e500", "fgar", "-")
+	add("h3", "app", "fresp", "-")
+	add("h3", "e500", "fresp", "-")
 	add("h3", "pooled", "fok", "-")
 	add("h3", "app", "fsil", "-")
 	if thorough {
